@@ -191,6 +191,19 @@ def _load_loop(mod, lv) -> Dict[str, Any]:
                 guard = ("ge", t[2][3][1], n)
             elif t[0] == "op" and t[1] == "<" and len(t) == 4 and t[2][0] == "c" and isinstance(t[2][1], int) and t[3] == N(var):
                 guard = ("ge", t[2][1] + 1, n)
+    if guard is None:
+        # guard on the number of bytes accumulated so far: `if len(raw) > K: raise` / `>= K`, checked before the read
+        accs = {n.target.id for n in ast.walk(lp) if isinstance(n, ast.AugAssign) and isinstance(n.op, ast.Add) and isinstance(n.target, ast.Name)}
+        for n in ast.walk(lp):
+            if isinstance(n, ast.If) and any(isinstance(b, ast.Raise) for b in n.body):
+                t = simplify(from_ast(n.test))
+                for acc in accs:
+                    ln = ("call", N("len"), (N(acc),), ())
+                    if t[0] == "op" and t[1] == "<" and len(t) == 4 and t[2][0] == "c" and isinstance(t[2][1], int) and t[3] == ln:
+                        guard = ("ge", t[2][1] + 1, n, "len")    # len(raw) > K
+                    elif t[0] == "op" and t[1] == "not" and t[2][0] == "op" and t[2][1] == "<" and len(t[2]) == 4 and t[2][2] == ln \
+                            and t[2][3][0] == "c" and isinstance(t[2][3][1], int):
+                        guard = ("ge", t[2][3][1], n, "len")     # len(raw) >= K
     out["guard"] = guard
     return out
 
@@ -203,6 +216,9 @@ def accepted_bytes(loop: Dict[str, Any]) -> Optional[int]:
     if step <= 0:
         return None
     bounds = []
+    if loop.get("guard") and len(loop["guard"]) > 3 and loop["guard"][3] == "len":
+        # the guard counts bytes already accumulated (start 0, step 1), checked before the read
+        return max(0, loop["guard"][1])
     if loop.get("guard"):
         bounds.append(loop["guard"][1])
     if loop["shape"] == "range":
